@@ -82,7 +82,11 @@ def install_observers():
     # an import of a module that is already cached raises no audit event: one of the two call wrappers must see it,
     # whichever of __import__ / importlib.import_module the translator uses
     if not any(e[0] in ("__import__", "import_module") for e in evs):
-        raise HarnessError("neither import wrapper sees a cached module import: %r" % (evs,))
+        # a translator that finds an already loaded module without any import call gives the wrappers nothing to see:
+        # fine as long as the valid descriptor was built (constructions are counted by the canaries themselves)
+        import decimal as _dec
+        if r[0] != "ret" or not isinstance(r[1], _dec.Decimal):
+            raise HarnessError("neither import wrapper sees a cached module import, and the valid descriptor gave %r" % (r,))
 
 
 def observe(fn):
@@ -130,7 +134,8 @@ def respell(text, mask):
     return text.replace('"%s"' % key, '"%s"' % spelled)
 
 
-PRIORS = ["none", "none", "dumped-homonym", "sent-homonym", "dumped-other", "loaded-valid"]
+PRIORS = ["none", "none", "dumped-homonym", "sent-homonym", "dumped-other", "loaded-valid", "sysmodules-alias", "local-table-entry"]
+_aliases = []
 _prior_keepalive = []
 
 
@@ -151,6 +156,23 @@ def prior_activity(prior, name):
         cls = type("Other", (object,), {"__module__": "__main__"})
         JC.dump(cls())
         return None
+    if prior == "sysmodules-alias":
+        # the application has loaded a module under a name that is no identifier (importlib.util.spec_from_file_location
+        # allows any key): sys.modules[<module part of the invalid name>] is the canary module
+        modname, _, clsname = name.rpartition(".") if isinstance(name, str) else ("", "", "")
+        if modname and modname not in sys.modules and "\0" not in modname:
+            import vcanary
+            sys.modules[modname] = vcanary
+            if clsname and not hasattr(vcanary, clsname):
+                try:
+                    setattr(vcanary, clsname, vcanary.Cls)
+                    _aliases.append(("attr", clsname))
+                except (TypeError, ValueError):
+                    pass
+            _aliases.append(("module", modname))
+        return None
+    if prior == "local-table-entry":
+        return None       # handled where the table is handed over (see _check_on)
     made = [0]
 
     def __init__(self, *a, **k):
@@ -183,11 +205,20 @@ def check_on(name, args, depth, side, version=2.0, spell=0, prior=None, outer=No
     """A well-formed descriptor [name, args] with an invalid name"""
     try:
         homonym = prior_activity(prior, name)
-        _check_on(name, args, depth, side, version, spell, outer)
+        _check_on(name, args, depth, side, version, spell, outer, local_entry=prior == "local-table-entry")
         if homonym is not None and homonym._made[0]:
             fail("C08/invalid-name-constructed", "an existing class named %r was instantiated %d times for a descriptor with that (invalid) name" % (name, homonym._made[0]))
     finally:
         del _prior_keepalive[:]
+        while _aliases:
+            kind, key = _aliases.pop()
+            if kind == "module":
+                sys.modules.pop(key, None)
+            else:
+                try:
+                    delattr(sys.modules["vcanary"], key)
+                except (AttributeError, KeyError):
+                    pass
 
 
 def _outer_quiet(evs, outer):
@@ -198,9 +229,15 @@ def _outer_quiet(evs, outer):
     return [e for e in evs if str(e[1]).split(".")[0] != top]
 
 
-def _check_on(name, args, depth, side, version=2.0, spell=0, outer=None):
+def _check_on(name, args, depth, side, version=2.0, spell=0, outer=None, local_entry=False):
     from jsonrpclib import jsonclass as JC, jsonrpc as J
     from jsonrpclib.config import Config
+
+    # the local class table may hold an entry under the very (invalid) name: the name is refused all the same
+    table = None
+    if local_entry and isinstance(name, str):
+        import vcanary
+        table = {name: vcanary.Cls}
 
     desc = {"__jsonclass__": [name, args], "x": 1}
     if outer:
@@ -208,13 +245,15 @@ def _check_on(name, args, depth, side, version=2.0, spell=0, outer=None):
         desc = {"__jsonclass__": [outer, []], "held": desc, "n": 1}
     payload = wrap_payload(desc, depth, "list")
     if side == "load":
-        r, evs, imps, made = observe(lambda: JC.load(payload))
+        r, evs, imps, made = observe(lambda: JC.load(payload, table) if table is not None else JC.load(payload))
     elif side == "client":
         text = respell(json.dumps({"jsonrpc": "2.0", "id": 1, "result": payload}), spell)
         r, evs, imps, made = observe(lambda: J.loads(text, Config()))
     else:
         registry = refmodel.Registry()
         disp, dm, registry, cfg = refmodel.make_dispatcher(version, True, "funcs", registry)
+        if table is not None:
+            cfg.classes.update(table)
         # the form of the carrying request must not matter (it is drawn from the case data): a 2.0 call, a 1.0 call, a
         # notification of either version, by-name parameters, the id member
         form = (sum(map(ord, name)) + depth + len(args)) % 7 if isinstance(name, str) else 0
@@ -232,6 +271,10 @@ def _check_on(name, args, depth, side, version=2.0, spell=0, outer=None):
         r, evs, imps, made = observe(lambda: disp._marshaled_dispatch(text))
         if r[0] != "ret":
             fail("C02/dispatcher-raised:%s" % type(r[1]).__name__, "dispatcher raised %r" % (r[1],))
+        try:
+            r[1].encode("utf-8")
+        except UnicodeError as ex:
+            fail("C08/server-not-32700", "the server's answer to a descriptor named %r cannot be put on the wire: %s" % (name, ex))
         got, single = refmodel.parse_reply(r[1])
         if len(got) != 1 or not single or not got[0].get("error") or got[0]["error"]["code"] != -32700:
             fail("C08/server-not-32700", "server answered %r to a descriptor named %r" % (r[1][:200], name))
@@ -272,7 +315,7 @@ def inject(base, i, ch):
     return base[:i] + ch + base[i:]
 
 
-bad_chars = gen.pick(st.sampled_from(["-", " ", "\n", "é", "/", "\0", "!", "٣", "Ａ", ":", "\t", "\\", "'", "(", "$", "​", "\U0001F600"]),
+bad_chars = gen.pick(st.sampled_from(["\ud83d", "\udce9", "-", " ", "\n", "é", "/", "\0", "!", "٣", "Ａ", ":", "\t", "\\", "'", "(", "$", "​", "\U0001F600"]),
                       st.characters(blacklist_categories=("Cs",)).filter(lambda c: not VALID.match(c)))
 
 
